@@ -538,6 +538,13 @@ impl Drop for Driver {
             match entry.user_data() {
                 Self::CANCEL | Self::NOTIFY => {}
                 key => {
+                    // A completion flagged MORE is not the last one of its operation
+                    // (multishot, zero-copy): the kernel still owns it and further
+                    // completions may be queued right behind this one. Its key stays in
+                    // `in_flight` and is released below, once, after the ring is closed.
+                    if more(entry.flags()) {
+                        continue;
+                    }
                     self.in_flight.remove(&(key as usize));
                     #[cfg(compio_verif)]
                     crate::verif::emit(crate::verif::DROP_DRAIN, key, 0);
